@@ -124,6 +124,11 @@ func runC14(c *Ctx) {
 		for _, st := range starts {
 			o := eval("%s.substring(%a0)", r, system.Integer(int32(st)))
 			c.Emit(fmt.Sprintf("ssub1 %s %d", hs, st), outTokens(o), nt)
+			if st < 0 || st >= int64(L) {
+				c.Law(outTokens(o) == "ok:[]", "C14/out-of-range-not-empty", "out-of-range positions yield empty", fmt.Sprintf("%q.substring(%d)", s, st), outTokens(o))
+			} else if o.Err == nil && len(o.Coll) == 1 {
+				c.Law(o.Coll[0] == system.String(string(runes[st:])), "C14/substring-characters", "positions count characters", fmt.Sprintf("%q.substring(%d)", s, st), outTokens(o))
+			}
 			checkUTF8(o, fmt.Sprintf("%q.substring(%d)", s, st))
 			lens := []int64{-1, 2147483647, -2147483648}
 			for k := 0; k <= L+2; k++ {
